@@ -29,13 +29,15 @@ Reps(c) ==
   CASE c = "RULENAME"   -> <<Rep("A", 0), Rep("B", 1), Rep("1b", 1), Rep("__asgn_r", 1)>>
     [] c = "ATTR"       -> <<Rep("x", 0), Rep("y", 1)>>
     [] c = "RULEREF"    -> <<Rep("ID", 0), Rep("A", 1), Rep("B", 1), Rep("INTEGER", 1), Rep("A.B", 1), Rep("ID.x", 1)>>
-    [] c = "PARAM"      -> <<Rep("skipws", 0), Rep("noskipws", 1), Rep("ws", 1), Rep("foo", 1)>>
+    [] c = "PARAM"      -> <<Rep("skipws", 0), Rep("noskipws", 1), Rep("ws", 1), Rep("foo", 1),
+                              Rep("nows", 1), Rep("split", 1), Rep("nosplit", 1)>>
     [] c = "ALIAS"      -> <<Rep("c", 0)>>
     [] c = "MATCHRULE"  -> <<Rep("ID", 0), Rep("A", 1)>>
     [] c = "QNAME"      -> <<Rep("A", 0), Rep("INT", 1), Rep("OBJECT", 1), Rep("A.B", 1), Rep("INT.y.z", 1)>>
     [] c = "IMPORTNAME" -> <<Rep("m", 0), Rep("m.n", 1)>>
     [] c = "LANGNAME"   -> <<Rep("l", 0), Rep("a-b", 1)>>
     [] c = "RID"        -> <<Rep("a", 0), Rep("b", 1)>>
+    [] c = "ALIASREF"   -> <<Rep("ID", 0), Rep("A", 1), Rep("B", 1), Rep("C", 1)>>
     [] c = "PTYPE"      -> <<Rep("A", 0)>>
     [] c = "STR"        -> <<Rep("'a'", 0), Rep("\"b\"", 1), Rep("''", 1), Rep("'\\xzz'", 1)>>
     [] c = "PVAL"       -> <<Rep("'a'", 0)>>
